@@ -58,6 +58,8 @@ pub struct World {
     pub cap: u64,
     /// every delta a node recorded (taken from the tail of its outbox right after `execute`)
     pub issued: Vec<ReplicationDelta>,
+    /// (node, key) of every conditional SET the executor refused and `execute` recorded all the same
+    pub refused_recorded: Vec<(usize, String)>,
     round: u64,
 }
 
@@ -103,7 +105,7 @@ impl World {
                 _ => line.push_str(" -"),
             }
         }
-        let mut w = World { sim, shape, text: String::new(), cap, issued: Vec::new(), round: seed.wrapping_mul(0x9E37_79B9_7F4A_7C15) };
+        let mut w = World { sim, shape, text: String::new(), cap, issued: Vec::new(), refused_recorded: Vec::new(), round: seed.wrapping_mul(0x9E37_79B9_7F4A_7C15) };
         w.op(out, line, "ok".into());
         w
     }
@@ -138,6 +140,27 @@ impl World {
         let ans = format!("d=1 pend={} {}", nd.replica_state.pending_deltas.len(), nd.replica_state.pending_deltas.last().map(did).unwrap_or("-".into()));
         self.op(out, format!("SX {} SET {} {} {}", i, hex(key.as_bytes()), hex(v), ex.map(|e| e.to_string()).unwrap_or("-".into())), ans);
         out.count("sim:exec:set");
+    }
+
+    /// `SET key v NX` / `XX` through `SimulatedNode::execute`
+    pub fn exec_set_cond(&mut self, out: &mut Out, i: usize, key: &str, v: &[u8], nx: bool) {
+        let before = self.sim.nodes[i].replica_state.pending_deltas.len();
+        let cmd = Command::Set { key: key.to_string(), value: SDS::new(v.to_vec()), ex: None, px: None, exat: None, pxat: None, nx, xx: !nx, get: false, keepttl: false };
+        let r = self.sim.execute(0, i, cmd);
+        let applied = matches!(r, RespValue::SimpleString(_));
+        let nd = &self.sim.nodes[i];
+        let after = nd.replica_state.pending_deltas.len();
+        // (the outbox is far from its capacity in these scenarios: its growth is the number of deltas)
+        let d = after.saturating_sub(before);
+        if d > 0 {
+            self.issued.extend(nd.replica_state.pending_deltas.last().cloned());
+        }
+        if !applied && d > 0 {
+            self.refused_recorded.push((i, key.to_string()));
+        }
+        let ans = format!("applied={} d={} pend={}", applied as u8, d, after);
+        self.op(out, format!("SXC {} {} {} {}", i, hex(key.as_bytes()), hex(v), if nx { "NX" } else { "XX" }), ans);
+        out.count(if applied { "sim:exec:set-cond:applied" } else { "sim:exec:set-cond:refused" });
     }
 
     pub fn exec_del(&mut self, out: &mut Out, i: usize, keys: &[&str]) {
@@ -260,7 +283,15 @@ impl World {
         for k in KEYS {
             let rep = self.sim.nodes[i].replica_state.replicated_keys.get(k).and_then(|rv| if rv.is_tombstone() { None } else { rv.get().map(|s| s.as_bytes().to_vec()) });
             let got = served.iter().find(|(x, _)| x == k).map(|(_, b)| b.clone());
-            if rep != got {
+            if rep != got && self.refused_recorded.iter().any(|(n, key)| *n == i && key == k) {
+                // by cause: this node executed a conditional SET of this key that the executor refused
+                // and `execute` recorded all the same
+                out.violation(
+                    "C06:sim:refused-set-recorded",
+                    "SimulatedNode::execute records a SET the executor refused (NX on an existing key / XX on a missing one): the node serves the old value, its replication state and its peers hold the refused one",
+                    json!({"history": self.text.clone(), "node": i, "key": k, "served": got.map(|b| hex(&b)), "replicated": rep.map(|b| hex(&b))}),
+                );
+            } else if rep != got {
                 out.violation(
                     "C06:sim:served-differs-from-replicated",
                     "a SimulatedNode serves a GET that differs from the live value of its replication state",
@@ -558,10 +589,30 @@ fn burst_over_outbox(out: &mut Out, rng: &mut Rng, cap: u64) {
     out.count(if writes > cap { "sim:burst:over-the-outbox-capacity" } else { "sim:burst:within-the-outbox-capacity" });
 }
 
+/// corpus (runs first, must reproduce C06:sim:refused-set-recorded while the finding is listed):
+/// `SET k a; SET k b NX` on node 0, one gossip exchange; then the XX twin on a missing key
+fn refused_set_corpus(out: &mut Out, cap: u64) {
+    let shape = Shape { n: 2, rf: None, causal: false, auto: false, depth: 8, limit: 1000, keys: KEYS.len() };
+    let mut w = World::new(out, shape, cap, 7);
+    w.exec_set(out, 0, "k", b"a", None);
+    w.exec_set_cond(out, 0, "k", b"b", true);
+    w.exec_set_cond(out, 0, "h", b"c", true);
+    w.exec_set_cond(out, 0, "zz", b"d", false);
+    w.exec_set_cond(out, 0, "h", b"e", false);
+    w.state(out, 0);
+    w.gossip(out, 0.0, 1, 1);
+    w.advance(out, 5);
+    w.gossip(out, 0.0, 1, 1);
+    w.states(out);
+    let text = w.text.clone();
+    out.case(&text, true);
+}
+
 pub fn part_s(out: &mut Out, rng: &mut Rng, n: usize) {
     let cap = crate::c06msg::read_src("src/replication/state/shard_state.rs")
         .and_then(|s| crate::c06msg::scan_const(&s, "MAX_PENDING_DELTAS"))
         .unwrap_or(100);
+    refused_set_corpus(out, cap);
     for _ in 0..n {
         let mut r = rng.fork();
         random_history(out, &mut r, cap);
